@@ -20,6 +20,8 @@
 
 package compile
 
+import "sort"
+
 // Module represents a compiled Thrift module. It contains all information
 // about all known types, constants, services, and includes from the Thrift
 // file.
@@ -87,7 +89,7 @@ func (m *Module) LookupInclude(name string) (Scope, error) {
 
 // Walk the module tree starting at the given module. This module and all its
 // direct and transitive dependencies will be visited exactly once in an
-// unspecified order. The walk will stop on the first error returned by `f`.
+// unspecified but deterministic order. The walk will stop on the first error returned by `f`.
 func (m *Module) Walk(f func(*Module) error) error {
 	visited := make(map[string]struct{})
 
@@ -103,8 +105,16 @@ func (m *Module) Walk(f func(*Module) error) error {
 		}
 
 		visited[m.ThriftPath] = struct{}{}
-		for _, inc := range m.Includes {
-			toVisit = append(toVisit, inc.Module)
+
+		// Visit includes in a fixed order so that everything derived from
+		// the order of the walk is the same from run to run.
+		names := make([]string, 0, len(m.Includes))
+		for name := range m.Includes {
+			names = append(names, name)
+		}
+		sort.Strings(names)
+		for _, name := range names {
+			toVisit = append(toVisit, m.Includes[name].Module)
 		}
 
 		if err := f(m); err != nil {
